@@ -19,7 +19,8 @@ theorem binv_push_cell {st : BState} (hinv : BInv st) {s' : Store} {c : Cell}
     (hhead : ∀ a, s'.currentRegister = some a →
       st.store.currentRegister = some a ∨ (a = st.store.cells.size ∧ isRegCell s'.cells a = true))
     (hcreg : ∀ p v, c = Cell.register p v → isRegCell st.store.cells p = true)
-    (hcfr : ∀ p r, (c = Cell.frame p r ∨ c = Cell.frameRegister r) → r < st.store.cells.size) :
+    (hcfr : ∀ p r, (c = Cell.frame p r ∨ c = Cell.frameRegister r) → r < st.store.cells.size)
+    (hfr : s'.currentFrame = st.store.currentFrame) (hnf : frameKind c = false) :
     BInv { st with store := s' } := by
   have hsub : Sub st.store.cells s'.cells := by rw [hcells]; simpa using sub_append st.store.cells #[c]
   have hnew : ∀ i x, s'.cells[i]? = some x → (i < st.store.cells.size ∧ st.store.cells[i]? = some x) ∨ x = c := by
@@ -33,7 +34,7 @@ theorem binv_push_cell {st : BState} (hinv : BInv st) {s' : Store} {c : Cell}
       rw [hcells] at hx
       simpa using hx.symm
   have hsz : st.store.cells.size ≤ s'.cells.size := by rw [hcells]; simp
-  refine ⟨hw, hfit, ?_, ?_, ?_⟩
+  refine ⟨hw, hfit, ?_, ?_, ?_, hinv.ftyped.push hcells hfr hnf⟩
   · intro a ha
     rcases hhead a ha with h | ⟨_, h⟩
     · exact isRegCell_sub hsub (hinv.regHead a h)
@@ -91,10 +92,10 @@ theorem pushRegister_law (nc : NumCode F) {st : BState} (hinv : BInv st) {a : Na
         a :: regsOf st.store.cells st.store.currentRegister →
       isRegCell (st.store.cells.push c) st.store.cells.size = true →
       (∀ p v, c = Cell.register p v → isRegCell st.store.cells p = true) →
-      (∀ p r, (c = Cell.frame p r ∨ c = Cell.frameRegister r) → False) →
+      (∀ p r, (c = Cell.frame p r ∨ c = Cell.frameRegister r) → False) → frameKind c = false →
       ∃ st', (basicRStore nc).pushRegister a st = .ok ((), st') ∧
         Eff (basicRStore nc) st st' (a :: (basicRStore nc).regs st) ((basicRStore nc).vals st) ∧ BInv st' := by
-    intro c hop hregs htyped hcreg hcfr
+    intro c hop hregs htyped hcreg hcfr hnf
     obtain ⟨s1, hp, hcells, hfit⟩ := push_total c hinv.fits
     obtain ⟨_, _, hf⟩ := push_ok hp
     have hopr := hop s1 _ hp
@@ -107,13 +108,13 @@ theorem pushRegister_law (nc : NumCode F) {st : BState} (hinv : BInv st) {a : Na
     · exact vals_sub (s' := { s1 with currentRegister := some st.store.cells.size }) hinv hsub hf.2.2.2.1
     · exact frames_sub (s' := { s1 with currentRegister := some st.store.cells.size }) hinv hsub hf.2.2.2.2.2
     · refine binv_push_cell hinv (c := c) hcells hw ⟨by simpa using hfit.1, hfit.2⟩ ?_ hcreg
-        (fun p r h => (hcfr p r h).elim)
+        (fun p r h => (hcfr p r h).elim) hf.2.2.2.2.2 hnf
       intro x hx
       simp only [Option.some.injEq] at hx
       exact Or.inr ⟨hx.symm, by rw [← hx]; show isRegCell s1.cells _ = true; rw [hcells]; exact htyped⟩
   cases hreg : st.store.currentRegister with
   | none =>
-    refine key (.registerRoot a) ?_ ?_ ?_ ?_ ?_
+    refine key (.registerRoot a) ?_ ?_ ?_ ?_ ?_ rfl
     · intro s1 i hp; simp [Store.pushRegister, hreg, hp, bind, Outcome.bind, pure]
     · rw [regsOf_root (v := a) (by simp), hreg]; rfl
     · simp [isRegCell]
@@ -126,7 +127,7 @@ theorem pushRegister_law (nc : NumCode F) {st : BState} (hinv : BInv st) {a : Na
       cases hc : st.store.cells[p]? with
       | none => simp [hc] at hpt
       | some c => exact cell_lt hc
-    refine key (.register p a) ?_ ?_ ?_ ?_ ?_
+    refine key (.register p a) ?_ ?_ ?_ ?_ ?_ rfl
     · intro s1 i hp; simp [Store.pushRegister, hreg, hp, bind, Outcome.bind, pure]
     · rw [regsOf_register (p := p) (v := a) (by simp) hplt, hreg]
       congr 1
@@ -146,7 +147,8 @@ theorem popRegister_law (nc : NumCode F) {st : BState} (hinv : BInv st) :
         (regsOf st.store.cells o) ((basicRStore nc).vals st) ∧
       BInv { st with store := { st.store with currentRegister := o } } := by
     intro o ho
-    refine ⟨⟨⟨fun _ _ h => h, rfl, rfl, rfl, rfl⟩, rfl, rfl, rfl, rfl⟩, ?_, hinv.fits, ho, hinv.regPrev, hinv.frameSaved⟩
+    refine ⟨⟨⟨fun _ _ h => h, rfl, rfl, rfl, rfl⟩, rfl, rfl, rfl, rfl⟩, ?_, hinv.fits, ho, hinv.regPrev, hinv.frameSaved,
+      ⟨hinv.ftyped.head, hinv.ftyped.prev, hinv.ftyped.reg⟩⟩
     refine hinv.wfq.withHeads o _ _ ?_ hinv.wfq.val hinv.wfq.frm
     cases o with
     | none => rfl
